@@ -302,6 +302,8 @@ func runC16(e *Engine, r *Report) {
 	// ---- error discipline in these paths
 	st := e.CheckErrDiscipline(r, errScope{pkgs: map[string]bool{"internal/server": true, "internal/fileutil": true}, files: map[string]bool{"snapshotter.go": true}}, c16Accept)
 	r.floor("ERR-calls", st.Calls, 40)
+	// deferred close/sync errors reach the caller (generic.go)
+	ruleDeferredErr(e, r, 2, "internal/server", "internal/fileutil", "internal/rsm", "")
 }
 
 // dependsOnGuard: some branch condition on the way to `in` depends on a pred value.
